@@ -480,6 +480,48 @@ theorem listInsertValues_tie (l vs : List α) (slot : Nat) (fuel : Nat)
     rw [e0] at this
     rw [this]
 
+/-! ### the class functions MakeFromSequence and Concatenate -/
+
+theorem listMakeFromSequence_loop_tie (values : List α) (bound : Nat) (hb : IsInt64 ((bound : Int) + 2)) :
+    ∀ (it acc : List α) (fuel : Nat), acc.length + it.length ≤ bound → acc.length + 2 * it.length + 1 < fuel →
+      Generated.listMakeFromSequence_loop1 values fuel acc it = some (.ok (it.foldl Seq.appendValue acc)) := by
+  intro it
+  induction it with
+  | nil =>
+    intro acc fuel _ hf
+    obtain ⟨f, rfl⟩ : ∃ k, fuel = k + 1 := ⟨fuel - 1, by omega⟩
+    simp [Generated.listMakeFromSequence_loop1]
+  | cons x xs ih =>
+    intro acc fuel hlen hf
+    obtain ⟨f, rfl⟩ : ∃ k, fuel = k + 1 := ⟨fuel - 1, by omega⟩
+    simp only [List.length_cons] at hlen hf
+    unfold Generated.listMakeFromSequence_loop1
+    simp only [List.isEmpty_cons, Bool.not_false, if_true, Seq.itNext]
+    rw [listAppendValue_tie acc x f (by unfold IsInt64 at *; omega) (by omega)]
+    simp only [bindO_ok, List.foldl_cons]
+    exact ih (Seq.appendValue acc x) f (by simp [Seq.appendValue]; omega) (by simp [Seq.appendValue]; omega)
+
+/-- `listClass_.MakeFromSequence` as written in list.go = `Seq.makeFromSequence` -/
+theorem listMakeFromSequence_tie (vs : List α) (fuel : Nat) (hb : IsInt64 ((vs.length : Int) + 2)) (hf : 2 * vs.length + 1 < fuel) :
+    Generated.listMakeFromSequence vs fuel = some (.ok (Seq.makeFromSequence vs)) := by
+  unfold Generated.listMakeFromSequence Seq.makeFromSequence
+  exact listMakeFromSequence_loop_tie vs vs.length hb vs [] fuel (by simp) (by simpa using hf)
+
+/-- `listClass_.Concatenate` as written in list.go = `Seq.concatenate` (C16) -/
+theorem listConcatenate_tie (a b : List α) (fuel : Nat) (hb : IsInt64 ((a.length : Int) + (b.length : Int) + 2))
+    (hf : a.length + b.length + 1 < fuel) :
+    Generated.listConcatenate a b fuel = some (.ok (Seq.concatenate a b)) := by
+  have e0 : (([] : List α).length : Int) = 0 := rfl
+  have n0 : ([] : List α).length = 0 := rfl
+  have h1 := listAppendValues_tie ([] : List α) a fuel (by rw [e0]; unfold IsInt64 at *; omega) (by rw [n0]; omega)
+  have e1 : (Seq.appendValues ([] : List α) a) = a := by simp only [Seq.appendValues, List.nil_append]
+  rw [e1] at h1
+  have h2 := listAppendValues_tie a b fuel hb hf
+  unfold Generated.listConcatenate Seq.concatenate
+  rw [e1]
+  show bindO (Generated.listAppendValues a [] fuel) (fun list => bindO (Generated.listAppendValues b list fuel) fun list => some (.ok list)) = _
+  rw [h1, bindO_ok, h2, bindO_ok]
+
 /-- non-vacuity: the translated code run on concrete lists -/
 example : Generated.listInsertValue (1 : Int) (9 : Int) [1, 2, 3] 10 = some (.ok [1, 9, 2, 3]) := by rfl
 example : Generated.listInsertValue (4 : Int) (9 : Int) [1, 2, 3] 10 = some (.error .slot) := by rfl
